@@ -323,12 +323,13 @@ pub fn c07(a: &Args) -> CaseSet {
         }).collect();
         let pos = *r.pick(&boundaries);
         for ins in ["(", ")"] { let mut t: String = chars[..pos].iter().collect(); t.push_str(ins); t.extend(chars[pos..].iter()); damaged.push(("insert-paren", t)); }
-        for ins in ["\\", "$", "?", "\u{7}", "»"] { let mut t: String = chars[..pos].iter().collect(); t.push_str(ins); t.extend(chars[pos..].iter()); damaged.push(("insert-illegal-char", t)); }
+        for ins in ["\\", "$", "?", "\u{7}", "»", "\t", "\n", "\u{a0}", "\u{2003}", "\u{3000}", "\u{85}"] { let mut t: String = chars[..pos].iter().collect(); t.push_str(ins); t.extend(chars[pos..].iter()); damaged.push(("insert-illegal-char", t)); }
         let binops: Vec<&OpSpec> = tb.iter().filter(|o| o.bin.is_some()).collect();
         damaged.push(("append-binop", format!("{plain} {}", r.pick(&binops).repr)));
         damaged.push(("extra-operand-after", format!("{plain} 7")));
         damaged.push(("extra-operand-before", format!("7 {plain}")));
         damaged.push(("blank", " ".repeat(r.below(4))));
+        for ws in ["\u{a0}", "\u{2003}", "\t"] { damaged.push(("damage-after-unicode-blank", format!("{plain}{ws})"))); damaged.push(("damage-after-unicode-blank", format!("{plain}{ws}+"))); }
         for (kind, t) in damaged {
             // "7 -x" or "7 +x" is a legitimate expression when the text starts with a sign that is also binary
             if kind == "extra-operand-before" { let first = plain.trim_start().chars().next().unwrap_or(' '); if tb.iter().any(|o| o.bin.is_some() && o.repr.starts_with(first)) { continue } }
@@ -505,6 +506,47 @@ pub fn c12(a: &Args) -> CaseSet {
 fn wrap_un(signs: &[usize], t: Term) -> Term { signs.iter().rev().fold(t, |acc, k| tun(*k, acc)) }
 fn tun(k: usize, t: Term) -> Term { Term::Un(k, Box::new(t)) }
 fn tbin(k: usize, a: Term, b: Term) -> Term { Term::Bin(k, Box::new(a), Box::new(b)) }
+/// C12 (second half): derivatives and arithmetic results over the float table's names, printed and parsed again
+pub fn c12d(a: &Args) -> CaseSet {
+    let mut cs = CaseSet::default();
+    let mut r = Rng::new(a.seed ^ 0x1212);
+    let tb = float_table();
+    let mut texts: Vec<String> = ["sin(cos(x))", "sin(-x)", "sin(cos(tan(x)))", "-cos(sin(x))*y", "exp(ln(sqrt(x)))", "x*y", "x", "x*x*y", "tanh(sinh(x))+y", "x^2"].iter().map(|s| s.to_string()).collect();
+    for _ in 0..a.n { let ch = gen_diff(&mut r, &tb, 1, false, false); texts.push(render(&ch, &tb, &mut r, &RenderCfg::plain())); }
+    for (i, text) in texts.iter().enumerate() {
+        set_table(&tb);
+        use exmex::Express;
+        let fx = match FE::parse_wo_compile(Box::leak(text.clone().into_boxed_str())) { Ok(f) => f, Err(_) => continue };
+        let vars: Vec<String> = fx.var_names().to_vec(); let nv = vars.len();
+        if nv == 0 { continue }
+        let idx = r.below(nv);
+        let base = match i % 3 { 0 => Prog::Flat(text.clone()), 1 => Prog::Deep(text.clone()), _ => Prog::ToDeep(Box::new(Prog::Flat(text.clone()))) };
+        let derived = Prog::Partial(vec![idx], 0, Box::new(base));
+        let re = if i % 2 == 0 { Prog::ReFlat(Box::new(derived.clone())) } else { Prog::ReDeep(Box::new(derived.clone())) };
+        // oracle: the reparsed expression has the value of the printed one wherever the printed text is made of literals;
+        // its variables are those of the printed one that still occur in the text (F6: the others vanish)
+        let qs = vec![Query::Vars, Query::Relaxed(nv), Query::Unparse];
+        let (tb2, derived2) = (tb.clone(), derived.clone());
+        cs.add(&tb, re, qs, format!("reparse of {}", pretty_prog(&derived)), "reparse-derivative", 3, move |obs| {
+            set_table(&tb2);
+            let (_, o) = observe(&derived2, &[Query::Vars, Query::Unparse, Query::Eval(nv)]);
+            let (ovars, printed, oval) = match (&o[0], &o[1], &o[2]) { (Obs::S(v), Obs::Str(s), Obs::T(t)) => (v.clone(), s.clone(), t.clone()), _ => return (None, "the derivative itself failed".into()) };
+            if printed.contains('§') { return (None, "printed text contains a folded non-literal value".into()) }
+            match (&obs[0], &obs[1]) {
+                (Obs::S(rv), _) => {
+                    if rv.iter().any(|v| !ovars.contains(v)) { return (Some(false), format!("reparsed variables {rv:?} not among {ovars:?}")) }
+                    if *rv != ovars { return (Some(false), format!("vanished-variable: printed {printed:?} has variables {rv:?}, the expression has {ovars:?}")) }
+                    match &obs[1] { Obs::T(t) => for pt in points(nv) { let (x, y) = (interp(t, &tb2, &pt), interp(&oval, &tb2, &pt)); if x.is_finite() && y.is_finite() && (x - y).abs() > 1e-9 * (1.0 + y.abs()) { return (Some(false), format!("reparsed text {printed:?} evaluates to {x}, the printed expression to {y} at {pt:?}")) } },
+                        other => return (Some(false), format!("reparsed evaluation: {}", pretty_obs(other))) }
+                    (Some(true), String::new())
+                }
+                other => (Some(false), format!("printed text {printed:?} does not parse: {}", pretty_obs(other.0))),
+            }
+        });
+    }
+    cs
+}
+
 /// C13: lexical families built from the table's names
 pub fn c13(a: &Args) -> CaseSet {
     let mut cs = CaseSet::default();
@@ -606,6 +648,25 @@ pub fn c15(a: &Args) -> CaseSet {
     // all words over k letters up to a length (exhaustive for small ones)
     for k in 1..=3usize { for len in 1..=(if a.thorough { 6 } else { 5 }) { let total = k.pow(len as u32); for code in 0..total { let mut c = code; let w: Vec<usize> = (0..len).map(|_| { let x = c % k; c /= k; x }).collect(); if (0..k).all(|l| w.contains(&l)) { words.push(w) } } } }
     for _ in 0..a.n { let k = 1 + r.below(5); let len = 1 + r.below(40); words.push((0..len).map(|_| r.below(k)).collect()); }
+    // derived flat expressions whose variable list contains names that no longer occur (derivatives, shortcuts)
+    let ftb = float_table();
+    for text in ["x*x*y", "x*x*x*y", "x*y*y", "x+y*x*x", "a*a+b*b+c", "x*x+y+z*z*z", "x*y", "sin(x)*sin(x)*y"] {
+        set_table(&ftb);
+        use exmex::Express;
+        let fx = FE::parse_wo_compile(Box::leak(text.to_string().into_boxed_str())).unwrap();
+        let n = fx.var_names().len();
+        for idx in 0..n {
+            let progs = [Prog::Partial(vec![idx], 0, Box::new(Prog::Flat(text.into()))),
+                         Prog::ToFlat(Box::new(Prog::Arith(0, Box::new(Prog::Deep(text.into())), Box::new(Prog::Arith(2, Box::new(Prog::Deep("q".into())), Box::new(Prog::Deep("0".into()))))))) ];
+            for p in progs {
+                let nq = if matches!(p, Prog::ToFlat(_)) { n + 1 } else { n };
+                cs.add(&ftb, p.clone(), vec![Query::Eval(nq), Query::EvalVec(nq)], format!("derived: {}", pretty_prog(&p)), "derived-with-unused-variables", 3, |obs| {
+                    match (&obs[0], &obs[1]) {
+                        (Obs::T(t), Obs::TC(t2, _)) => if t != t2 { (Some(false), format!("eval_vec {} differs from eval {}", t2.pretty(), t.pretty())) } else if t2.has_dflt() { (Some(false), "a moved-out placeholder reached an operator".into()) } else { (Some(true), String::new()) },
+                        _ => (Some(false), format!("{} / {}", pretty_obs(&obs[0]), pretty_obs(&obs[1]))) } });
+            }
+        }
+    }
     for (wi, w) in words.iter().enumerate() {
         let ops = ["+", "*", "-", "/", "&"];
         let mut text = String::new();
@@ -639,7 +700,7 @@ const NODIFF_UN: [&str; 6] = ["abs", "signum", "floor", "ceil", "round", "cbrt"]
 fn op_idx(tb: &[OpSpec], name: &str) -> usize { tb.iter().position(|o| o.repr == name).unwrap_or_else(|| panic!("no operator {name}")) }
 
 fn gen_diff(r: &mut Rng, tb: &[OpSpec], depth: usize, allow_nodiff: bool, cond_ok: bool) -> Chain {
-    let leaf = |r: &mut Rng| if r.chance(1, 2) { Atom::Var(["x", "y", "z"][r.below(3)].to_string()) } else { Atom::Lit(["0.5", "2", "1.3", "3", "1", "0", "0.25"][r.below(7)].to_string()) };
+    let leaf = |r: &mut Rng| if r.chance(1, 2) { Atom::Var(["x", "y", "z"][r.below(3)].to_string()) } else { Atom::Lit(["0.5", "2", "1.3", "3", "1", "0", "0.25", "1", "0"][r.below(9)].to_string()) };
     let atom = |r: &mut Rng, depth: usize| -> Atom {
         let c = r.below(12);
         if depth > 3 || c < 4 { leaf(r) }
@@ -676,11 +737,30 @@ pub fn c05(a: &Args) -> CaseSet {
     let mut cs = CaseSet::default();
     let mut r = Rng::new(a.seed ^ 0x05);
     let tb = float_table();
-    for text in ["x", "x*x", "sin(x)*y", "x^2", "2^x", "x^y", "sqrt(x)/y", "ln(x*y)", "tan(x)", "-cos(sin(x))", "x/2", "1/x", "exp(-x^2)", "atanh(x/2)", "acosh(1+x)", "log10(x)+log2(y)", "+-+x", "abs(x)", "min(x, y)", "floor(x)+x", "x+y*z-x/y^z"] {
-        for deep in [false, true] {
+    for text in ["x", "x*x", "sin(x)*y", "x^2", "2^x", "x^y", "sqrt(x)/y", "ln(x*y)", "tan(x)", "-cos(sin(x))", "x/2", "1/x", "exp(-x^2)", "atanh(x/2)", "acosh(1+x)", "log10(x)+log2(y)", "+-+x", "x+y*z-x/y^z",
+                 "x^1", "x^0", "x^0*x", "sin(x)^1*y", "2*x^(3-2)+x^2", "x^(2-2)+x", "(x*y)^1", "x^1^2", "0^x+x", "1^x*x", "x*1", "x*0+y", "0/x+x", "x/1", "(x+0)*(y*1)", "sin(cos(x))", "sin(-x)", "exp(ln(sqrt(x)))", "tanh(sinh(cosh(x)))"] {
+        set_table(&tb);
+        use exmex::Express;
+        let fx = FE::parse_wo_compile(Box::leak(text.to_string().into_boxed_str())).unwrap();
+        let vars: Vec<String> = fx.var_names().to_vec(); let nv = vars.len();
+        let f = fx.eval(&symvals(nv)).unwrap();
+        for deep in [false, true] { for idx in 0..nv {
             let base = if deep { Prog::Deep(text.into()) } else { Prog::Flat(text.into()) };
-            cs.add(&tb, Prog::Partial(vec![0], 0, Box::new(base)), vec![Query::Vars, Query::Relaxed(3), Query::Unparse], format!("corpus: d/dv0 {text}"), "corpus", 3, |_| (None, String::new()));
-        }
+            let (tb2, vars2, f2) = (tb.clone(), vars.clone(), f.clone());
+            cs.add(&tb, Prog::Partial(vec![idx], 0, Box::new(base)), vec![Query::Vars, Query::Eval(nv), Query::Unparse], format!("corpus: d/dv{idx} {text}"), "corpus", 3, move |obs| {
+                match (&obs[0], &obs[1]) {
+                    (Obs::S(v), Obs::T(d)) => {
+                        if *v != vars2 { return (Some(false), format!("variables {v:?} vs {vars2:?}")) }
+                        for pt in points(vars2.len()) { if let Some(want) = num_partial(&f2, &tb2, &pt, idx) { let got = interp(d, &tb2, &pt); if got.is_finite() && (got - want).abs() > 1e-3 * (1.0 + want.abs()) { return (Some(false), format!("at {pt:?}: derivative expression gives {got}, central differences give {want}")) } } }
+                        (Some(true), String::new())
+                    }
+                    _ => (Some(false), format!("{} / {}", pretty_obs(&obs[0]), pretty_obs(&obs[1]))),
+                }
+            });
+        } }
+    }
+    for text in ["abs(x)", "min(x, y)", "floor(x)+x"] {
+        cs.add(&tb, Prog::Partial(vec![0], 0, Box::new(Prog::Flat(text.into()))), vec![Query::Vars], format!("corpus: d/dv0 {text}"), "missing-rule", 3, |obs| (Some(obs[0] == Obs::E), pretty_obs(&obs[0])));
     }
     for i in 0..a.n {
         let allow_nodiff = i % 9 == 0;
@@ -852,12 +932,23 @@ fn all_finite(t: &Term, tb: &[OpSpec], pt: &[f64]) -> bool {
         _ => true }
 }
 
+/// the point lies on a branch boundary with respect to variable idx: some comparison that depends on it has equal sides
+fn on_boundary(t: &Term, tb: &[OpSpec], pt: &[f64], idx: usize) -> bool {
+    fn dep(t: &Term, idx: usize) -> bool { match t { Term::Var(i) => *i == idx, Term::Un(_, a) => dep(a, idx), Term::Bin(_, a, b) => dep(a, idx) || dep(b, idx), _ => false } }
+    match t {
+        Term::Un(_, a) => on_boundary(a, tb, pt, idx),
+        Term::Bin(k, a, b) => {
+            let cmp = [">", "<", ">=", "<=", "==", "!="].contains(&tb[*k].repr.as_str());
+            (cmp && (dep(a, idx) || dep(b, idx)) && (interp(a, tb, pt) - interp(b, tb, pt)).abs() < 1e-3) || on_boundary(a, tb, pt, idx) || on_boundary(b, tb, pt, idx)
+        }
+        _ => false }
+}
 /// C18: piecewise expressions over the value table's names, on the term algebra
 pub fn c18(a: &Args) -> CaseSet {
     let mut cs = CaseSet::default();
     let mut r = Rng::new(a.seed ^ 0x18);
     let tb = val_table();
-    let conds = ["x > 0.7", "y <= 0.5", "x < y", "x >= 1", "x + y > 1.3", "x != 2", "x == y"];
+    let conds = ["x > 0.7", "y <= 0.5", "x < y", "x >= 1", "x + y > 1.3", "x != 2", "x == y", "y != 0.5", "y == 0.453", "x + y != x + 1", "x == 0.37", "y != 0.453", "x != 0.37"];
     fn gen_pw(r: &mut Rng, tb: &[OpSpec], depth: usize, conds: &[&str]) -> String {
         if depth < 2 && r.chance(1, 2) {
             let c = conds[r.below(conds.len())];
@@ -897,7 +988,11 @@ pub fn c18(a: &Args) -> CaseSet {
             match (&obs[0], &obs[1]) {
                 (Obs::S(v), Obs::T(d)) => {
                     if *v != vars2 { return (Some(false), format!("variables {v:?} vs {vars2:?}")) }
-                    for pt in points(vars2.len()) {
+                    let mut pts = points(vars2.len());
+                    // points where the comparisons with == / != on the other variable are decided the rare way
+                    pts.push(vec![0.37, 0.453]); pts.push(vec![0.91, 0.5]); pts.push(vec![0.37, 0.5]);
+                    for pt in pts.into_iter().filter(|p| p.len() >= vars2.len()).map(|p| p[..vars2.len()].to_vec()) {
+                        if on_boundary(&fterm, &tb2, &pt, idx) { continue }
                         if let Some(want) = num_partial(&fterm, &tb2, &pt, idx) {
                             let got = interp(d, &tb2, &pt);
                             if !got.is_finite() { continue }
@@ -911,4 +1006,115 @@ pub fn c18(a: &Args) -> CaseSet {
         });
     }
     cs
+}
+
+// ------------------------------------------------------------------------------------------------
+/// follow-up calls on everything that parses, on the f64 and Val entry points (no model involved): returns the
+/// name of the first call that panicked
+pub fn follow_up_f64(t: &str) -> Result<(), String> {
+    use exmex::prelude::*;
+    use exmex::{DeepEx, Differentiate};
+    macro_rules! guard { ($name:expr, $e:expr) => { if std::panic::catch_unwind(std::panic::AssertUnwindSafe(|| { let _ = $e; })).is_err() { return Err($name.to_string()) } } }
+    guard!("eval_str", exmex::eval_str::<f64>(t));
+    guard!("line_2_statement", exmex::statements::line_2_statement::<f64, exmex::FloatOpsFactory<f64>, exmex::NumberMatcher>(t));
+    let f = match std::panic::catch_unwind(|| FlatEx::<f64>::parse(t)) { Err(_) => return Err("FlatEx::parse".into()), Ok(r) => r };
+    if let Ok(f) = f {
+        let n = f.var_names().len(); let vals = vec![1.5; n];
+        guard!("eval", f.eval(&vals)); guard!("eval_relaxed", f.eval_relaxed(&vals)); guard!("eval_vec", f.eval_vec(vals.clone())); guard!("unparse", f.unparse().len());
+        guard!("reprs", (f.binary_reprs(), f.unary_reprs(), f.operator_reprs())); guard!("var_indices_ordered", f.var_indices_ordered());
+        guard!("to_deepex", f.clone().to_deepex().map(|d| { let _ = d.eval(&vals); let _ = d.unparse().len(); let _ = d.operator_reprs(); let _ = FlatEx::<f64>::from_deepex(d.clone()).map(|g| g.eval(&vals)); if n > 0 { let _ = d.partial(0).map(|p| p.eval(&vals)); } }));
+        if n > 0 { guard!("partial", f.clone().partial(0).map(|p| p.eval(&vals))); guard!("partial_nth", f.clone().partial_nth(n - 1, 2)); }
+        guard!("operate_unary", f.clone().operate_unary("sin").map(|g| g.eval(&vals)));
+    }
+    let w = match std::panic::catch_unwind(|| FlatEx::<f64>::parse_wo_compile(t)) { Err(_) => return Err("parse_wo_compile".into()), Ok(r) => r };
+    if let Ok(w) = w { let n = w.var_names().len(); guard!("wo eval", w.eval(&vec![0.5; n])); guard!("compile", { let mut g = w.clone(); g.compile(); g.eval(&vec![0.5; n]) }); guard!("wo to_deepex", w.to_deepex()); }
+    let d = match std::panic::catch_unwind(|| DeepEx::<f64>::parse(t)) { Err(_) => return Err("DeepEx::parse".into()), Ok(r) => r };
+    if let Ok(d) = d { let n = d.var_names().len(); let vals = vec![1.5; n]; guard!("deep eval", d.eval(&vals)); guard!("deep unparse", d.unparse().len()); guard!("deep reprs", d.binary_reprs()); guard!("from_deepex", FlatEx::<f64>::from_deepex(d.clone()).map(|g| g.eval(&vals))); if n > 0 { guard!("deep partial", d.clone().partial(0)); } }
+    Ok(())
+}
+pub fn follow_up_val(t: &str) -> Result<(), String> {
+    use exmex::{parse_val, Express, Val};
+    macro_rules! guard { ($name:expr, $e:expr) => { if std::panic::catch_unwind(std::panic::AssertUnwindSafe(|| { let _ = $e; })).is_err() { return Err($name.to_string()) } } }
+    let f = match std::panic::catch_unwind(|| parse_val::<i32, f64>(t)) { Err(_) => return Err("parse_val".into()), Ok(r) => r };
+    if let Ok(f) = f {
+        let n = f.var_names().len();
+        for v in [Val::Int(i32::MIN), Val::Int(-1), Val::Float(f64::NAN), Val::Bool(true), Val::None, Val::Array(smallvec::smallvec![1.0, 2.0, 3.0])] { guard!("val eval", f.eval(&vec![v.clone(); n])); }
+        guard!("val to_deepex", f.clone().to_deepex().map(|d| d.unparse().to_string()));
+    }
+    guard!("line_2_statement_val", exmex::line_2_statement_val::<i32, f64>(t));
+    Ok(())
+}
+
+/// C06: no text can crash the library.  Part 1 (with the model): strings over a token-piece alphabet through the
+/// three parsers and follow-up calls on the term algebra.  Part 2 (implementation only): exhaustive short strings
+/// over two 20-symbol alphabets through the f64 and Val entry points and every follow-up call.
+pub fn c06(a: &Args) -> CaseSet {
+    let mut cs = CaseSet::default();
+    let mut r = Rng::new(a.seed ^ 0x06);
+    let tb = std_tables()[0].clone();
+    let pieces = ["x", "y", "1", "2.5", ".", "+", "-", "*", "/", "^", "sin", "cos", "(", ")", ",", "{", "}", " ", "é", "max", "atan2", "PI", "e", "α", "$", "\u{7}", "{a b}", "1e5", "..", "=", "[", "]"];
+    let n_model = a.n;
+    for i in 0..n_model {
+        let len = if i % 5 == 0 { 8 + r.below(20) } else { 1 + r.below(7) };
+        let text: String = if i % 4 == 3 {
+            // mutate a well-formed text: delete, duplicate or swap characters
+            let cfg = GenCfg::default_for(&tb);
+            let (_, t, _, _) = tree_setup(&mut r, &tb, &cfg, 10, &RenderCfg { spaces: true, braces: true, redundant_parens: true, call_space: false });
+            let mut cs_: Vec<char> = t.chars().collect();
+            for _ in 0..1 + r.below(3) { if cs_.is_empty() { break } let k = r.below(cs_.len()); match r.below(3) { 0 => { cs_.remove(k); } 1 => { let c = cs_[k]; cs_.insert(k, c); } _ => { let j = r.below(cs_.len()); cs_.swap(k, j); } } }
+            cs_.into_iter().collect()
+        } else { (0..len).map(|_| *r.pick(&pieces)).collect::<Vec<_>>().join(if r.chance(1, 3) { " " } else { "" }) };
+        let base = match i % 3 { 0 => Prog::Flat(text.clone()), 1 => Prog::FlatWo(text.clone()), _ => Prog::Deep(text.clone()) };
+        let progs = [base.clone(), Prog::ToDeep(Box::new(base.clone())), Prog::ToFlat(Box::new(base.clone())), Prog::Partial(vec![0], 0, Box::new(base.clone()))];
+        let p = progs[(i / 3) % 4].clone();
+        let qs = vec![Query::Vars, Query::Relaxed(4), Query::Eval(1), Query::EvalVec(2), Query::Unparse, Query::OpReprs];
+        cs.add(&tb, p, qs, format!("{text:?}"), "token-pieces", len.max(2), |obs| { let bad = obs.iter().any(|o| *o == Obs::P); (Some(!bad), if bad { "a call panicked".into() } else { String::new() }) });
+    }
+    // part 2: exhaustive over short strings, implementation only (counted, not written to the Coq shards)
+    let alpha_f = ["x", "1", ".", "+", "-", "*", "sin", "(", ")", ",", "{", "}", " ", "é", "min", "^", "e", "2.5", "=", "y"];
+    let alpha_v = ["x", "1", "+", "-", "%", "(", ")", ",", "[", "]", " ", "if", "else", "true", "to_int", "1e10", ".", "<<", "==", "abs"];
+    let maxlen = if a.thorough { 4 } else { 3 };
+    let (mut count, mut panics) = (0u64, 0u64);
+    for (which, alphabet) in [(0, &alpha_f[..]), (1, &alpha_v[..])] {
+        let k = alphabet.len();
+        for len in 0..=maxlen {
+            for code in 0..k.pow(len as u32) {
+                let mut c = code; let mut t = String::new();
+                for _ in 0..len { t.push_str(alphabet[c % k]); c /= k; }
+                count += 1;
+                let res = if which == 0 { follow_up_f64(&t) } else { follow_up_val(&t) };
+                if let Err(call) = res {
+                    panics += 1;
+                    if panics <= 20 { cs.add(&tb, Prog::Flat(t.clone()), vec![Query::Vars], format!("[{}] {t:?}: {call} panicked", if which == 0 { "f64" } else { "Val" }), "exhaustive-short-strings", 2, move |_| (Some(false), format!("{call} panicked"))); }
+                }
+            }
+        }
+    }
+    EXTRA.with(|e| *e.borrow_mut() = format!("exhaustive_short_strings={count} (all strings of <= {maxlen} pieces over two 20-piece alphabets, f64 and Val entry points, all follow-up calls) panics={panics}"));
+    cs
+}
+thread_local! { pub static EXTRA: std::cell::RefCell<String> = std::cell::RefCell::new(String::new()); }
+
+/// nested / long inputs in this (child) process: announces each step on stdout so that the driver can tell where a
+/// stack overflow (which aborts the process) happened
+pub fn c06_nest(depth: usize, kind: usize, what: &str) {
+    use exmex::prelude::*;
+    use exmex::{DeepEx, Differentiate};
+    let mut s = String::from("x");
+    match kind {
+        0 => for i in 0..depth { s = format!("({s}+{})*2", i % 7 + 1) },
+        1 => for _ in 0..depth { s = format!("sin({s})") },
+        2 => for i in 0..depth { s = format!("{}-({s})", i % 5 + 1) },
+        3 => for _ in 0..depth { s = format!("-(y*({s}))^2") },
+        _ => for _ in 0..depth { s = format!("{s}+y*x") },
+    }
+    let v = vec![0.5; 2];
+    println!("STEP parse depth={depth} kind={kind} what={what} tokens~{}", s.len());
+    match what {
+        "flat" => { let f = FlatEx::<f64>::parse(&s).unwrap(); let n = f.var_names().len(); println!("STEP eval"); f.eval(&v[..n]).unwrap(); }
+        "deep" => { let d = DeepEx::<f64>::parse(&s).unwrap(); let n = d.var_names().len(); println!("STEP eval"); d.eval(&v[..n]).unwrap(); println!("STEP unparse"); let _ = d.unparse().len(); }
+        "conv" => { let f = FlatEx::<f64>::parse(&s).unwrap(); let n = f.var_names().len(); println!("STEP to_deepex"); let d = f.to_deepex().unwrap(); println!("STEP eval"); d.eval(&v[..n]).unwrap(); println!("STEP from_deepex"); let f2 = FlatEx::<f64>::from_deepex(d).unwrap(); f2.eval(&v[..n]).unwrap(); }
+        _ => { let d = DeepEx::<f64>::parse(&s).unwrap(); let n = d.var_names().len(); println!("STEP partial"); let p = d.partial(0).unwrap(); println!("STEP eval"); p.eval(&v[..n]).unwrap(); }
+    }
+    println!("STEP done");
 }
